@@ -600,3 +600,50 @@ func AsInstrs[T ssa.Instruction](ins []T) []ssa.Instruction {
 	}
 	return out
 }
+
+// PhiEdgeSinks returns, for every phi in fn whose Comment (source variable
+// name) matches name, the terminators of the predecessor blocks that feed the
+// phi a value satisfying pred — "the assignment x = v" as a program point.
+func PhiEdgeSinks(fn *ssa.Function, name string, pred func(v ssa.Value) bool) []ssa.Instruction {
+	var out []ssa.Instruction
+	seen := map[ssa.Instruction]bool{}
+	for _, b := range fn.Blocks {
+		for _, in := range b.Instrs {
+			phi, ok := in.(*ssa.Phi)
+			if !ok {
+				break
+			}
+			if phi.Comment != name {
+				continue
+			}
+			for i, e := range phi.Edges {
+				if _, isPhi := e.(*ssa.Phi); isPhi {
+					continue
+				}
+				if pred(e) {
+					pb := b.Preds[i]
+					t := pb.Instrs[len(pb.Instrs)-1]
+					if !seen[t] {
+						seen[t] = true
+						out = append(out, t)
+					}
+				}
+			}
+		}
+	}
+	return out
+}
+
+// EdgeIfs returns the If instructions that own the given edges.
+func EdgeIfs(edges []Edge) []ssa.Instruction {
+	var out []ssa.Instruction
+	seen := map[ssa.Instruction]bool{}
+	for _, e := range edges {
+		t := e.From.Instrs[len(e.From.Instrs)-1]
+		if !seen[t] {
+			seen[t] = true
+			out = append(out, t)
+		}
+	}
+	return out
+}
